@@ -200,61 +200,70 @@ def _run(res, rng, tier, driver, work):
     projs["emptyNet"] = "-"
     ops_lines, ops_impl = [], []
     model_lines, impl_lines, cases = [], [], []
-    for fmt in pu.FORMATS:
-        enc = {n: pu.save_bytes(states[n], work, fmt) for n in ("stale", "old", "new")}
-        stale_variants = {"w": enc["stale"], "d": enc["stale"][: len(enc["stale"]) // 3]}
-        case_dir = os.path.join(work, "case-" + fmt)
-        load_dir = os.path.join(work, "load-" + fmt)
-        os.makedirs(case_dir)
-        os.makedirs(load_dir)
-        # (a) the real operation sequence of a complete save
-        for cfg in ("none", "good"):
-            main = setup_case(case_dir, fmt, cfg, enc, None, None)
-            pers = pu.persistence_for(dict(states["new"]), main)
-            shim = pu.FsShim()
-            with shim.installed():
-                pers.save_sensors()
-            seq = pu.model_ops(shim.ops, main, main + ".bak", pu.tmp_name(main))
-            ops_lines.append(f"FSOPS {1 if cfg == 'good' else 0}")
-            ops_impl.append(" ".join(seq))
-            res.count("recorded-ops:" + fmt + ":" + cfg, len(shim.ops))
-            res.evaluations += 1
-            nreal = len(shim.ops)
-            if cfg == "good":
-                real_exists = list(shim.ops)
-            else:
-                real_none = list(shim.ops)
-            # the fsync must be on the temp file, after the last write and the flush
-            names = [o[0] for o in shim.ops]
-            if not ("fsync" in names and "rename" in names
-                    and names.index("fsync") > max([i for i, n in enumerate(names) if n in ("write", "flush")] or [-1])
-                    and shim.ops[names.index("fsync")][1] == pu.tmp_name(main)
-                    and names.index("fsync") < names.index("rename")):
-                res.oracle_failures.append({"key": {"kind": "fsync-order", "fmt": fmt}, "what": "temp file is not "
-                                            "synced between its last write and the first rename",
-                                            "replay": {"fmt": fmt, "cfg": cfg, "ops": shim.ops}})
-            if pu.get(main) != enc["new"] or pu.get(main + ".bak") is not None or pu.get(pu.tmp_name(main)) is not None:
-                res.oracle_failures.append({"key": {"kind": "complete-save", "fmt": fmt, "cfg": cfg},
-                                            "what": "a complete save does not leave exactly the new file",
-                                            "replay": {"fmt": fmt, "cfg": cfg}})
-        # (b) every configuration × crash point / failing operation × loss
-        for cfg in CFGS:
-            exists = cfg != "none"
-            real = real_exists if exists else real_none
-            nreal = len(real)
-            widx = [i for i, o in enumerate(real) if o[0] == "write"]
-            keep_w = set(widx) if tier == "thorough" or len(widx) <= 6 else \
-                set(widx[:2] + widx[-2:] + rng.sample(widx[2:-2], 2))
-            sel = [i for i in range(nreal + 1) if i == nreal or real[i][0] != "write" or i in keep_w]
-            sb_opts = ["w", "d"] if cfg in ("goodBak", "goodBoth") else ["w"]
-            st_opts = ["w", "d"] if cfg in ("goodTmp", "goodBoth") else ["w"]
-            for sb in sb_opts:
-                for st in st_opts:
-                    for mode in ("crash", "fail"):
-                        points = sel if mode == "crash" else [i for i in sel if i < nreal]
-                        for at in points:
-                            run_point(res, fmt, cfg, sb, st, mode, at, enc, stale_variants, states, projs,
-                                      next_lines, case_dir, load_dir, model_lines, impl_lines, cases)
+    # the second family: the good file holds a network without nodes (what a gateway writes before any node has
+    # presented itself) next to a stale backup of an older, non-empty generation
+    empty_old = {"stale": states["new"], "old": {}, "new": states["stale"], "next": states["old"]}
+    projs_empty = {"old": "-"}
+    projs_empty.update({n: pu.project(dict(v), transient=True) for n, v in empty_old.items() if n != "old"})
+    projs_empty["emptyNet"] = "-"
+    families = [("chain", states, projs, CFGS), ("empty-old", empty_old, projs_empty, ["goodBak", "goodBoth"])]
+    for variant, states, projs, cfg_list in families:
+        FAMILY[0] = variant
+        for fmt in pu.FORMATS:
+            enc = {n: pu.save_bytes(states[n], work, fmt) for n in ("stale", "old", "new")}
+            stale_variants = {"w": enc["stale"], "d": enc["stale"][: len(enc["stale"]) // 3]}
+            case_dir = os.path.join(work, f"case-{variant}-" + fmt)
+            load_dir = os.path.join(work, f"load-{variant}-" + fmt)
+            os.makedirs(case_dir)
+            os.makedirs(load_dir)
+            # (a) the real operation sequence of a complete save
+            for cfg in ("none", "good"):
+                main = setup_case(case_dir, fmt, cfg, enc, None, None)
+                pers = pu.persistence_for(dict(states["new"]), main)
+                shim = pu.FsShim()
+                with shim.installed():
+                    pers.save_sensors()
+                seq = pu.model_ops(shim.ops, main, main + ".bak", pu.tmp_name(main))
+                ops_lines.append(f"FSOPS {1 if cfg == 'good' else 0}")
+                ops_impl.append(" ".join(seq))
+                res.count("recorded-ops:" + fmt + ":" + cfg, len(shim.ops))
+                res.evaluations += 1
+                nreal = len(shim.ops)
+                if cfg == "good":
+                    real_exists = list(shim.ops)
+                else:
+                    real_none = list(shim.ops)
+                # the fsync must be on the temp file, after the last write and the flush
+                names = [o[0] for o in shim.ops]
+                if not ("fsync" in names and "rename" in names
+                        and names.index("fsync") > max([i for i, n in enumerate(names) if n in ("write", "flush")] or [-1])
+                        and shim.ops[names.index("fsync")][1] == pu.tmp_name(main)
+                        and names.index("fsync") < names.index("rename")):
+                    res.oracle_failures.append({"key": {"kind": "fsync-order", "fmt": fmt}, "what": "temp file is not "
+                                                "synced between its last write and the first rename",
+                                                "replay": {"fmt": fmt, "cfg": cfg, "ops": shim.ops}})
+                if pu.get(main) != enc["new"] or pu.get(main + ".bak") is not None or pu.get(pu.tmp_name(main)) is not None:
+                    res.oracle_failures.append({"key": {"kind": "complete-save", "fmt": fmt, "cfg": cfg},
+                                                "what": "a complete save does not leave exactly the new file",
+                                                "replay": {"fmt": fmt, "cfg": cfg}})
+            # (b) every configuration × crash point / failing operation × loss
+            for cfg in cfg_list:
+                exists = cfg != "none"
+                real = real_exists if exists else real_none
+                nreal = len(real)
+                widx = [i for i, o in enumerate(real) if o[0] == "write"]
+                keep_w = set(widx) if tier == "thorough" or len(widx) <= 6 else \
+                    set(widx[:2] + widx[-2:] + rng.sample(widx[2:-2], 2))
+                sel = [i for i in range(nreal + 1) if i == nreal or real[i][0] != "write" or i in keep_w]
+                sb_opts = ["w", "d"] if cfg in ("goodBak", "goodBoth") else ["w"]
+                st_opts = ["w", "d"] if cfg in ("goodTmp", "goodBoth") else ["w"]
+                for sb in sb_opts:
+                    for st in st_opts:
+                        for mode in ("crash", "fail"):
+                            points = sel if mode == "crash" else [i for i in sel if i < nreal]
+                            for at in points:
+                                run_point(res, fmt, cfg, sb, st, mode, at, enc, stale_variants, states, projs,
+                                          next_lines, case_dir, load_dir, model_lines, impl_lines, cases)
     res.exhaustive = tier == "thorough"
     res.extra["write_points"] = "every write call" if tier == "thorough" else \
         "first two, last two and two random write calls per configuration (all other operations: every one)"
@@ -394,6 +403,15 @@ MODEL_NAMES = {True: ["openTmp", "write", "flush", "fsync", "close", "renMainBak
                False: ["openTmp", "write", "flush", "fsync", "close", "renTmpMain", "end"]}
 
 
+FAMILY = ["chain"]
+
+
+def family_states(states, name):
+    if name == "empty-old":
+        return {"stale": states["new"], "old": {}, "new": states["stale"], "next": states["old"]}
+    return states
+
+
 def record(res, cases, fmt, cfg, sb, st, mode, at, done, how, cls, nxt, exists, k):
     res.evaluations += 1
     opname = MODEL_NAMES[exists][min(k, len(MODEL_NAMES[exists]) - 1)]
@@ -402,7 +420,7 @@ def record(res, cases, fmt, cfg, sb, st, mode, at, done, how, cls, nxt, exists, 
     if k >= 1:
         res.distinct.add(digest([fmt, cfg, sb, st, mode, at, how]))
     allowed = {"new"} | ({"old"} if cfg != "none" else {"emptyNet"})
-    case = {"fmt": fmt, "cfg": cfg, "staleBak": sb, "staleTmp": st, "mode": mode, "real_op_index": at,
+    case = {"family": FAMILY[0], "fmt": fmt, "cfg": cfg, "staleBak": sb, "staleTmp": st, "mode": mode, "real_op_index": at,
             "before_model_op": opname, "loss": how, "loaded": cls, "next": nxt}
     cases.append(case)
     if cls not in allowed:
@@ -426,7 +444,9 @@ def replay(payload):
     work = tempfile.mkdtemp(prefix="verif-c12-")
     try:
         states, script = build_states(rng)
-        projs = {n: pu.project(s) for n, s in states.items()}
+        states = family_states(states, r.get("family", "chain"))
+        projs = {"old": pu.project(states["old"])}
+        projs.update({n: pu.project(s) for n, s in states.items() if n != "old"})
         projs["emptyNet"] = "-"
         fmt = r["fmt"]
         enc = {n: pu.save_bytes(states[n], work, fmt) for n in ("stale", "old", "new")}
